@@ -27,7 +27,8 @@ BRIDGE = {
     "C12": ["reservedNames", "pyKeywords", "invalidModuleExtra", "transportUnsafeExtra"],
     "C13": ["uriSampleStar"],
     "C14": ["clientInit", "requestInit", "requestExec", "responseHandling"],
-    "C15": [],
+    "C15": ["pyKeywords", "reservedNames", "snake1", "snake1Repl", "snake2", "snake2Repl", "snake3", "snake3Repl", "snake4", "snake4Repl",
+            "wordRanges", "digitRanges", "spaceRanges"],
     "C16": [],
     "C17": ["mixinsMap"],
     "C18": [],
@@ -52,7 +53,8 @@ def theorems_in(path):
         m = re.match(r"^namespace\s+(\S+)", ln)
         if m:
             ns.append(m.group(1))
-        if re.match(r"^end\s+\S+", ln) and ns:
+        m = re.match(r"^end\s+(\S+)", ln)
+        if m and ns and m.group(1) == ns[-1]:     # `end Aux` closes a section, not the namespace
             ns.pop()
         m = re.match(r"^(?:private\s+|protected\s+)?theorem\s+(\S+)", ln)
         if m:
